@@ -86,6 +86,86 @@ RoundTripOk(ev) ==
      /\ Tup(r.b2) = Tup(r.b1)
      /\ r.eq = 1
 
+
+----------------------------------------------------------------------------
+(* casts (doc comments: as_* give the value when the kind matches; to_* also coerce     *)
+(* booleans, and strings holding "true"/"false" or a number)                             *)
+IsDigit(b) == b >= 48 /\ b <= 57
+DigitsOf(s) == [i \in 1..Len(s) |-> s[i] - 48]
+\* Rust integer grammar: optional sign, at least one digit
+ParseInt(s, signed) ==
+  LET neg == Len(s) > 0 /\ s[1] = 45
+      pos == Len(s) > 0 /\ s[1] = 43
+      body == IF neg \/ pos THEN Drop(s, 1) ELSE s
+  IN IF Len(body) = 0 \/ (\E i \in 1..Len(body) : ~IsDigit(body[i])) \/ (neg /\ ~signed) THEN <<>>
+     ELSE LET n == LexemeInt(neg, DigitsOf(body))
+          IN IF n = <<>> THEN <<>>
+             ELSE IF signed THEN AsI64(n[1]) ELSE AsU64(n[1])
+One8 == <<0, 0, 0, 0, 0, 0, 0, 1>>
+Zero8 == <<0, 0, 0, 0, 0, 0, 0, 0>>
+FOne8 == <<63, 240, 0, 0, 0, 0, 0, 0>>
+LowerAscii(s) == [i \in 1..Len(s) |-> Lower(s[i])]
+TrueBytes == <<116, 114, 117, 101>>
+FalseBytes == <<102, 97, 108, 115, 101>>
+FloatChars == {43, 45, 46, 69, 101} \cup (48..57) \cup {105, 110, 102, 116, 121, 97, 73, 78, 70, 84, 89, 65}
+
+CastsOk(ev) ==
+  LET d == D(ev, 1)
+      r == ev.res
+      isnum == d.k = "num"
+      n == IF isnum THEN CanonNum(NumOf(d)) ELSE UZero
+      isbool == d.k \in {"true", "false"}
+      bv == d.k = "true"
+      isstr == d.k = "str"
+      sv == IF isstr THEN d.s ELSE <<>>
+      InvalidCast == RErr("InvalidCast")
+      ViewR(v) == IF v = <<>> THEN RNone ELSE RBytes(v[1])
+      ToInt(view, signed) ==
+        IF isnum /\ view # <<>> THEN RBytes(view[1])
+        ELSE IF isbool THEN RBytes(IF bv THEN One8 ELSE Zero8)
+        ELSE IF isstr /\ ParseInt(sv, signed) # <<>> THEN RBytes(ParseInt(sv, signed)[1])
+        ELSE InvalidCast
+  IN /\ r.t = "casts"
+     /\ r.is_null = RBool(d.k = "null")
+     /\ r.as_null = (IF d.k = "null" THEN [t |-> "unit"] ELSE RNone)
+     /\ r.is_boolean = RBool(isbool)
+     /\ r.as_bool = (IF isbool THEN RBool(bv) ELSE RNone)
+     /\ r.to_bool = (IF isbool THEN RBool(bv)
+                     ELSE IF isstr /\ Tup(LowerAscii(sv)) = TrueBytes THEN RBool(TRUE)
+                     ELSE IF isstr /\ Tup(LowerAscii(sv)) = FalseBytes THEN RBool(FALSE)
+                     ELSE InvalidCast)
+     /\ r.is_number = RBool(isnum)
+     /\ r.as_number = (IF isnum THEN [t |-> "num", r |-> n.r, b |-> n.b] ELSE RNone)
+     /\ r.is_i64 = RBool(isnum /\ AsI64(n) # <<>>)
+     /\ r.as_i64 = (IF isnum THEN ViewR(AsI64(n)) ELSE RNone)
+     /\ r.to_i64 = ToInt(IF isnum THEN AsI64(n) ELSE <<>>, TRUE)
+     /\ r.is_u64 = RBool(isnum /\ AsU64(n) # <<>>)
+     /\ r.as_u64 = (IF isnum THEN ViewR(AsU64(n)) ELSE RNone)
+     /\ r.to_u64 = ToInt(IF isnum THEN AsU64(n) ELSE <<>>, FALSE)
+     /\ r.is_f64 = RBool(isnum)
+     /\ r.as_f64 = (IF isnum THEN RBytes(AsF64(n)) ELSE RNone)
+     /\ (IF isnum THEN r.to_f64 = RBytes(AsF64(n))
+         ELSE IF isbool THEN r.to_f64 = RBytes(IF bv THEN FOne8 ELSE Zero8)
+         ELSE IF isstr /\ ParseInt(sv, TRUE) # <<>> THEN r.to_f64 = RBytes(AsF64(N("i", ParseInt(sv, TRUE)[1])))
+         ELSE IF isstr /\ ParseInt(sv, FALSE) # <<>> THEN r.to_f64 = RBytes(AsF64(N("u", ParseInt(sv, FALSE)[1])))
+         ELSE IF isstr /\ Len(sv) > 0 /\ (\A i \in 1..Len(sv) : sv[i] \in FloatChars)
+              THEN r.to_f64.t \in {"bytes", "err"}      \* other float spellings: not specified here
+         ELSE r.to_f64 = InvalidCast)
+     /\ r.is_string = RBool(isstr)
+     /\ r.as_str = (IF isstr THEN RStr(sv) ELSE RNone)
+     /\ (IF isstr THEN r.to_str = RStr(sv)
+         ELSE IF isbool THEN r.to_str = RStr(IF bv THEN TrueBytes ELSE FalseBytes)
+         ELSE IF isnum /\ n.r # "f" THEN r.to_str = RStr(IntText(n))
+         ELSE IF isnum THEN r.to_str.t = "str"          \* float digits: decided by the rendering check
+         ELSE r.to_str = InvalidCast)
+     /\ r.is_array = RBool(d.k = "arr")
+     /\ r.is_object = RBool(d.k = "obj")
+
+ObjectEach(d) ==
+  IF d.k = "obj" THEN [t |-> "pairs", v |-> [i \in 1..Len(d.o) |-> <<d.o[i][1], Tup(Encode(d.o[i][2]))>>]] ELSE RNone
+ArrayValues(d) ==
+  IF d.k = "arr" THEN [t |-> "list", v |-> [i \in 1..Len(d.a) |-> Tup(Encode(d.a[i]))]] ELSE RNone
+
 ----------------------------------------------------------------------------
 Accept(ev) ==
   LET op == ev.op
@@ -97,12 +177,19 @@ Accept(ev) ==
     [] op = "num_decode" -> NumDecodeOk(ev)
     [] op = "num_cmp" -> NumCmpOk(ev)
     [] op = "compare" -> SafeEq(ROrd(Cmp(D(ev, 1), D(ev, 2))), ev.res)
-    [] op = "contains" -> SafeEq(RBool(Contains(D(ev, 1), D(ev, 2))), ev.res)
+    [] op = "contains" -> SafeEq(RBool(DocContains(D(ev, 1), D(ev, 2))), ev.res)
     [] op = "get_by_index" -> SafeEq(ROpt(GetByIndex(D(ev, 1), a.i)), ev.res)
     [] op = "get_by_name" -> SafeEq(ROpt(GetByName(D(ev, 1), a.n, a.ic = 1)), ev.res)
     [] op = "get_by_keypath" -> SafeEq(ROpt(GetByKeypath(D(ev, 1), a.kp)), ev.res)
     [] op = "array_length" -> SafeEq(ArrayLength(D(ev, 1)), ev.res)
     [] op = "object_keys" -> SafeEq(ROpt(ObjectKeys(D(ev, 1))), ev.res)
+    [] op = "object_each" -> SafeEq(ObjectEach(D(ev, 1)), ev.res)
+    [] op = "array_values" -> SafeEq(ArrayValues(D(ev, 1)), ev.res)
+    [] op = "type_of" -> SafeEq([t |-> "name", v |-> TypeName(D(ev, 1))], ev.res)
+    [] op = "casts" -> CastsOk(ev)
+    [] op = "exists_keys" -> SafeEq(RBool(IF a.all = 1 THEN ExistsAllKeys(D(ev, 1), a.keys) ELSE ExistsAnyKeys(D(ev, 1), a.keys)), ev.res)
+    [] op = "traverse" -> SafeEq(RBool(TraverseCheckString(D(ev, 1), a.pred)), ev.res)
+    [] op = "comparable2" -> ev.res.t = "keys" /\ LexCmp(ev.res.k0, ev.res.k1) = Cmp(D(ev, 1), D(ev, 2))
     [] op = "concat" -> SafeEq(RBytes(Encode(Concat(D(ev, 1), D(ev, 2)))), ev.res) /\ BufferOk(ev)
     [] op = "delete_by_name" -> SafeEq(REdit(DeleteByName(D(ev, 1), a.n)), ev.res) /\ BufferOk(ev)
     [] op = "delete_by_index" -> SafeEq(REdit(DeleteByIndex(D(ev, 1), a.i)), ev.res) /\ BufferOk(ev)
